@@ -77,6 +77,10 @@ class Monitor:
         self.c02_pos = 0           # forward-sweep position for the C02 automaton
         self.c02_r = 0
         self.usage_reports = {}
+        # late finalisation: the driver draws `late` further Forward actions after the forward was
+        # told to reach n, does not execute them (the calculation has ended), and only then calls finalize(n)
+        self.late_left = int(cfg.get("late", 0)) if C.is_online(cfg) else 0
+        self.in_late_window = False
 
     # -- helpers ----------------------------------------------------------
     def v(self, prop, pred, detail):
@@ -106,7 +110,7 @@ class Monitor:
         if not (ok and ok2 and ok3):
             self.v("C08", "observer-raises", "n/r/max_n raised")
         else:
-            if self.fwd is not None and n_ != self.fwd:
+            if self.fwd is not None and n_ != self.fwd and not (self.in_late_window and not self.finalized):
                 self.v("C08", "n-wrong", "schedule.n=%r but forward state stands at %r" % (n_, self.fwd))
             if r_ != self.r_expected():
                 self.v("C08", "r-wrong", "schedule.r=%r but %r steps reversed in this pass" % (r_, self.r_expected()))
@@ -189,6 +193,20 @@ class Monitor:
     def _forward(self, t, was_finalized):
         _, n0, n1, wi, wa, st = t
         n = self.n
+        if not self.finalized and n0 >= n:
+            # requested beyond the true end while not yet finalised: not executed, nothing stored
+            if self.phase != "forward":
+                self.v("C02", "forward-sweep-overrun", "%s after EndForward without finalisation" % fmt(t))
+            if self.late_left > 0:
+                self.late_left -= 1
+                return
+            try:
+                quiet(self.sched.finalize, n)
+            except Exception as e:
+                raise LibError("finalize(%d)" % n, e)
+            self.finalized = True
+            self.in_late_window = False
+            return
         # C02 automaton: forward sweep
         if self.phase == "forward":
             if n0 != self.c02_pos:
@@ -245,7 +263,12 @@ class Monitor:
                     if n1 - n0 != 1 or n0 != self.adj_pos() - 1:
                         self.v("C12", "adj-deps-placement", "%s writes adjoint data to WORK, adjoint position %d" % (fmt(t), self.adj_pos()))
         # online finalisation, as every documented driver does it
-        if not self.finalized and n1 >= n:
+        if not self.finalized and n1 >= n and self.late_left > 0:
+            self.late_left -= 1
+            self.in_late_window = True
+            if n1 - n0 > 1 and n1 > n:
+                self.fin_inside_multistep = True
+        elif not self.finalized and n1 >= n:
             if n1 - n0 > 1 and n1 > n:
                 self.fin_inside_multistep = True
             try:
@@ -253,6 +276,7 @@ class Monitor:
             except Exception as e:
                 raise LibError("finalize(%d)" % n, e)
             self.finalized = True
+            self.in_late_window = False
 
     def _reverse(self, t):
         _, n1, n0, clear = t
